@@ -5,6 +5,8 @@ import (
 	"errors"
 	"fmt"
 	"io"
+	"os"
+	"syscall"
 )
 
 // ReadCall is one Read received by a scripted reader.
@@ -223,6 +225,21 @@ func (w scriptedWriterRF) ReadFrom(r io.Reader) (int64, error) {
 }
 
 var errScripted = errors.New("scripted stream failure")
+
+// scriptedErrKinds: what a failing source or sink returns. A stream cut short inside a decoder (gzip, flate, a zip
+// member, a short HTTP body) surfaces as io.ErrUnexpectedEOF, bare or wrapped: an end-of-stream *kind* that is
+// nevertheless a failure, never a normal end of the data.
+var scriptedErrKinds = []error{
+	errScripted,
+	io.ErrUnexpectedEOF,
+	fmt.Errorf("flate: truncated member: %w", io.ErrUnexpectedEOF),
+	io.ErrClosedPipe,
+	&os.PathError{Op: "read", Path: "source", Err: syscall.EIO},
+}
+
+func scriptedErr(ch *Chooser, label string) error {
+	return scriptedErrKinds[ch.Pick(label, 3, 2, 2, 1, 1)]
+}
 
 // genBytes produces deterministic content from a seed; every 251-byte window is distinct enough for prefix checks.
 func genBytes(seed uint64, n int) []byte {
